@@ -149,7 +149,7 @@ func Main(t *testing.T, prop string) {
 			c.Count("witness")
 		}
 		profs := Profiles(prop)
-		n := c.N(60, 1500)
+		n := c.N(140, 1500)
 		for i := 0; i < n; i++ {
 			p := profs[i%len(profs)]
 			cs, gen := NewGen(c.Rand.Fork(), p)
